@@ -596,3 +596,12 @@ Proof.
     as (_ & _ & ss & E & A2 & A3 & A4 & A5).
   simpl in E. subst acc. auto.
 Qed.
+
+(* the entry point only adds an early refusal *)
+Lemma put_rep_ok_inv session ack local lists rep ini p acc :
+  put_rep session ack local lists rep ini = (Ok, p, acc) ->
+  save_rep ack local lists rep ini = (Ok, p, acc).
+Proof.
+  unfold put_rep. destruct ini as [i|]; auto.
+  destruct (negb session && Nat.ltb (length (i_limits i)) (length rep)); auto. discriminate.
+Qed.
